@@ -1,2 +1,302 @@
-def main():
-    return 0
+"""Conformance suite: scripted micro-histories executed against the real kernel objects (loopback TCP sockets,
+selectors.DefaultSelector = epoll, multiprocessing.Pipe) and against the simulated ones, comparing return values and
+exception classes / errno names.  A disagreement is a harness error (exit 3), never a verdict.
+
+Run as  `python -m sim.conformance`  (spawned by `./check selftest conformance|setup`): the real part must run in an
+interpreter where the standard library is not patched, the simulated part runs after sim.install.install().
+"""
+import errno
+import json
+import os
+import struct
+import subprocess
+import sys
+import time
+from typing import Any, Callable, Dict, List, Tuple
+
+# ---------------------------------------------------------------------------------------------------------------------
+# stream socket histories.  Endpoints: 'c' (connecting side) and 's' (accepted side).  Both non-blocking.
+# ops: (end, 'send', bytes) (end, 'recv', n) (end, 'close') (end, 'rst') (end, 'shutdown') (end, 'shutrd')
+# ---------------------------------------------------------------------------------------------------------------------
+TCP: Dict[str, List[Tuple[Any, ...]]] = {
+    'echo': [('c', 'send', b'abc'), ('s', 'recv', 10), ('s', 'send', b'xy'), ('c', 'recv', 1), ('c', 'recv', 10)],
+    'recv_empty_eagain': [('s', 'recv', 10)],
+    'fin_then_recv': [('c', 'close'), ('s', 'recv', 10), ('s', 'recv', 10)],
+    'data_then_fin': [('c', 'send', b'abc'), ('c', 'close'), ('s', 'recv', 2), ('s', 'recv', 10), ('s', 'recv', 10)],
+    'rst_recv_shutdown': [('c', 'rst'), ('s', 'recv', 10), ('s', 'shutdown'), ('s', 'recv', 10), ('s', 'send', b'x')],
+    'rst_shutdown_unread': [('c', 'rst'), ('s', 'shutdown'), ('s', 'recv', 10)],
+    'rst_send': [('c', 'rst'), ('s', 'send', b'x'), ('s', 'send', b'x'), ('s', 'recv', 10)],
+    'fin_shutdown_twice': [('c', 'close'), ('s', 'recv', 10), ('s', 'shutdown'), ('s', 'shutdown')],
+    'closed_peer_send_twice': [('c', 'close'), ('s', 'send', b'x'), ('s', 'send', b'x'), ('s', 'shutdown'), ('s', 'recv', 10)],
+    'close_with_unread_is_rst': [('s', 'send', b'hello'), ('c', 'send', b'abc'), ('c', 'close'), ('s', 'recv', 10), ('s', 'recv', 10),
+                                 ('s', 'shutdown')],
+    'shutdown_twice_peer_open': [('s', 'shutdown'), ('s', 'shutdown'), ('s', 'send', b'x'), ('c', 'recv', 10)],
+    'half_close': [('c', 'shutdown'), ('s', 'recv', 10), ('s', 'send', b'late'), ('c', 'recv', 10), ('c', 'send', b'x')],
+    'send_after_own_close': [('s', 'close'), ('s', 'send', b'x')],
+    'recv_after_own_close': [('s', 'close'), ('s', 'recv', 1)],
+    'fin_after_data_send_back': [('c', 'send', b'q'), ('c', 'shutdown'), ('s', 'recv', 10), ('s', 'recv', 10), ('s', 'send', b'r'),
+                                 ('c', 'recv', 10), ('s', 'close'), ('c', 'recv', 10)],
+    'rst_after_data_read_order': [('c', 'send', b'abc'), ('c', 'rst'), ('s', 'recv', 10), ('s', 'recv', 10)],
+    'shutdown_then_peer_close': [('s', 'shutdown'), ('c', 'recv', 10), ('c', 'close'), ('s', 'recv', 10), ('s', 'shutdown')],
+}
+
+# selector histories on one connected pair; 'S' is a DefaultSelector owned by the 's' side process.
+# ops: ('reg', end, mask) ('mod', end, mask) ('unreg', end) ('sel',) ('close', end) ('dupclose', end) ('newpair',) ('regnew', mask)
+#      ('send', end, data) ('map',)
+SEL: Dict[str, List[Tuple[Any, ...]]] = {
+    'readable_after_data': [('reg', 's', 1), ('sel',), ('send', 'c', b'x'), ('sel',)],
+    'writable': [('reg', 's', 2), ('sel',)],
+    'close_while_registered_map': [('reg', 's', 1), ('close', 's'), ('map',), ('sel',)],
+    'closed_fd_reused_register': [('reg', 's', 1), ('close', 's'), ('newpair',), ('regnew', 1)],
+    'closed_fd_modify_same_mask': [('reg', 's', 1), ('close', 's'), ('newpair',), ('modnew', 1)],
+    'closed_fd_modify_other_mask': [('reg', 's', 1), ('close', 's'), ('newpair',), ('modnew', 3), ('map',)],
+    'unregister_closed': [('reg', 's', 1), ('close', 's'), ('unreg_fd',), ('map',)],
+    'register_twice': [('reg', 's', 1), ('reg', 's', 1)],
+    'unregister_unknown': [('unreg', 's')],
+    'modify_unknown': [('mod', 's', 1)],
+    'hup_after_peer_close': [('reg', 's', 1), ('close', 'c'), ('sel',)],
+    'rst_readable': [('reg', 's', 3), ('rst', 'c'), ('sel',)],
+}
+
+
+def _err(e: BaseException) -> str:
+    if isinstance(e, OSError) and e.errno is not None:
+        return 'E:' + errno.errorcode.get(e.errno, str(e.errno))
+    return 'X:' + type(e).__name__
+
+
+def run_tcp(make_pair: Callable[[], Tuple[Any, Any]], rst: Callable[[Any], None], settle: Callable[[], None],
+            ops: List[Tuple[Any, ...]]) -> List[Any]:
+    import socket
+    c, s = make_pair()
+    ends = {'c': c, 's': s}
+    out: List[Any] = []
+    for op in ops:
+        x = ends[op[0]]
+        try:
+            if op[1] == 'send':
+                r: Any = x.send(op[2])
+            elif op[1] == 'recv':
+                r = x.recv(op[2]).decode('latin-1')
+            elif op[1] == 'close':
+                x.close()
+                r = 'ok'
+            elif op[1] == 'rst':
+                rst(x)
+                r = 'ok'
+            elif op[1] == 'shutdown':
+                x.shutdown(socket.SHUT_WR)
+                r = 'ok'
+            else:
+                raise ValueError(op)
+        except (OSError, ValueError) as e:
+            r = _err(e)
+        out.append(r)
+        settle()
+    for x in ends.values():
+        try:
+            x.close()
+        except OSError:
+            pass
+    return out
+
+
+def run_sel(make_pair: Callable[[], Tuple[Any, Any]], rst: Callable[[Any], None], settle: Callable[[], None],
+            ops: List[Tuple[Any, ...]]) -> List[Any]:
+    import selectors
+    sel = selectors.DefaultSelector()
+    c, s = make_pair()
+    ends = {'c': c, 's': s}
+    fds = {'c': c.fileno(), 's': s.fileno()}
+    new: List[Any] = []
+    out: List[Any] = []
+    for op in ops:
+        try:
+            if op[0] == 'reg':
+                sel.register(fds[op[1]], op[2], 'd')
+                r: Any = 'ok'
+            elif op[0] == 'mod':
+                sel.modify(fds[op[1]], op[2], 'd')
+                r = 'ok'
+            elif op[0] == 'unreg':
+                sel.unregister(fds[op[1]])
+                r = 'ok'
+            elif op[0] == 'unreg_fd':
+                sel.unregister(fds['s'])
+                r = 'ok'
+            elif op[0] == 'sel':
+                ev = sel.select(timeout=0)
+                r = sorted(('s' if k.fd == fds['s'] else 'c' if k.fd == fds['c'] else 'n', m) for k, m in ev)
+            elif op[0] == 'close':
+                ends[op[1]].close()
+                r = 'ok'
+            elif op[0] == 'rst':
+                rst(ends[op[1]])
+                r = 'ok'
+            elif op[0] == 'send':
+                r = ends[op[1]].send(op[2])
+            elif op[0] == 'newpair':
+                a, b = make_pair()
+                new += [a, b]
+                # lowest-free-number allocation: the closed number is reused by one of the new sockets
+                r = 'reused' if fds['s'] in (a.fileno(), b.fileno()) else 'notreused'
+            elif op[0] == 'regnew':
+                sel.register(fds['s'], op[1], 'n')
+                r = 'ok'
+            elif op[0] == 'modnew':
+                sel.modify(fds['s'], op[1], 'n')
+                r = 'ok'
+            elif op[0] == 'map':
+                r = sorted('s' if fd == fds['s'] else 'c' if fd == fds['c'] else 'n' for fd in sel.get_map())
+            else:
+                raise ValueError(op)
+        except (OSError, KeyError, ValueError) as e:
+            r = _err(e)
+        out.append(r)
+        settle()
+    try:
+        sel.close()
+    except OSError:
+        pass
+    for x in list(ends.values()) + new:
+        try:
+            x.close()
+        except OSError:
+            pass
+    return out
+
+
+def run_pipe(make_pipe: Callable[[], Tuple[Any, Any]]) -> Dict[str, Any]:
+    out: Dict[str, Any] = {}
+    a, b = make_pipe()
+    a.send({'x': 1})
+    out['roundtrip'] = b.recv()
+    b.close()
+    try:
+        a.send('to-dead-peer')
+        out['send_dead'] = 'ok'
+    except Exception as e:      # noqa
+        out['send_dead'] = _err(e)
+    a.close()
+    a, b = make_pipe()
+    a.close()
+    try:
+        b.recv()
+        out['recv_dead'] = 'ok'
+    except Exception as e:      # noqa
+        out['recv_dead'] = _err(e)
+    try:
+        out['poll_dead'] = b.poll(0)
+    except Exception as e:      # noqa
+        out['poll_dead'] = _err(e)
+    b.close()
+    try:
+        b.send(1)
+        out['send_closed_self'] = 'ok'
+    except Exception as e:      # noqa
+        out['send_closed_self'] = _err(e)
+    return out
+
+
+# ---------------------------------------------------------------------------------------------------------------------
+
+def real_results() -> Dict[str, Any]:
+    import multiprocessing
+    import socket
+
+    def make_pair() -> Tuple[Any, Any]:
+        lst = socket.socket()
+        lst.bind(('127.0.0.1', 0))
+        lst.listen(1)
+        c = socket.socket()
+        c.connect(lst.getsockname())
+        s, _ = lst.accept()
+        lst.close()
+        c.setblocking(False)
+        s.setblocking(False)
+        return c, s
+
+    def rst(x: Any) -> None:
+        x.setsockopt(socket.SOL_SOCKET, socket.SO_LINGER, struct.pack('ii', 1, 0))
+        x.close()
+
+    def settle() -> None:
+        time.sleep(0.01)
+    res: Dict[str, Any] = {'tcp': {}, 'sel': {}}
+    for name, ops in TCP.items():
+        res['tcp'][name] = run_tcp(make_pair, rst, settle, ops)
+    for name, ops in SEL.items():
+        res['sel'][name] = run_sel(make_pair, rst, settle, ops)
+    res['pipe'] = run_pipe(lambda: multiprocessing.Pipe())
+    return res
+
+
+def sim_results() -> Dict[str, Any]:
+    from .install import install
+    install()
+    from .kernel import World
+    from .sockets import SimSocket
+    from .tape import Tape
+    import multiprocessing
+    res: Dict[str, Any] = {'tcp': {}, 'sel': {}}
+
+    def in_world(fn: Callable[[Any], Any]) -> Any:
+        with World(Tape(replay=[])) as w:
+            def make_pair() -> Tuple[Any, Any]:
+                a, b = w.stream_pair(65536, 65536, 'conf:c', 'conf:s')
+                fa = w.main_proc.alloc(a)
+                fb = w.main_proc.alloc(b)
+                ca, cb = SimSocket(fileno=fa), SimSocket(fileno=fb)
+                ca.setblocking(False)
+                cb.setblocking(False)
+                return ca, cb
+
+            def rst(x: Any) -> None:
+                x._stream().k_reset()
+                x.detach()
+                w.main_proc.fds.pop(x._sfd, None)
+            return fn((make_pair, rst, lambda: None))
+    for name, ops in TCP.items():
+        res['tcp'][name] = in_world(lambda t, ops=ops: run_tcp(t[0], t[1], t[2], ops))
+    for name, ops in SEL.items():
+        res['sel'][name] = in_world(lambda t, ops=ops: run_sel(t[0], t[1], t[2], ops))
+    res['pipe'] = in_world(lambda t: run_pipe(lambda: multiprocessing.Pipe()))
+    return res
+
+
+def main() -> int:
+    here = os.path.dirname(os.path.dirname(os.path.abspath(__file__)))
+    env = dict(os.environ)
+    env['PYTHONPATH'] = here + os.pathsep + env.get('PYTHONPATH', '')
+    outs = {}
+    for which in ('real', 'sim'):
+        p = subprocess.run([sys.executable, '-W', 'ignore', '-m', 'sim.conformance', which], cwd=here, env=env,
+                           capture_output=True, text=True, timeout=300)
+        if p.returncode != 0:
+            print('HARNESS-ERROR: conformance %s part failed:\n%s' % (which, p.stderr[-2000:]))
+            return 3
+        outs[which] = json.loads(p.stdout.strip().splitlines()[-1])
+    bad = 0
+    n = 0
+    for group in ('tcp', 'sel'):
+        for name in outs['real'][group]:
+            n += 1
+            r, s = outs['real'][group][name], outs['sim'][group][name]
+            if r != s:
+                bad += 1
+                print('CONFORMANCE MISMATCH %s/%s:\n   real %r\n   sim  %r' % (group, name, r, s))
+    for k in outs['real']['pipe']:
+        n += 1
+        if outs['real']['pipe'][k] != outs['sim']['pipe'][k]:
+            bad += 1
+            print('CONFORMANCE MISMATCH pipe/%s: real %r sim %r' % (k, outs['real']['pipe'][k], outs['sim']['pipe'][k]))
+    print('conformance: %d histories compared against the real kernel objects, %d mismatches' % (n, bad))
+    return 3 if bad else 0
+
+
+if __name__ == '__main__':
+    if len(sys.argv) > 1 and sys.argv[1] in ('real', 'sim'):
+        r = real_results() if sys.argv[1] == 'real' else sim_results()
+        print(json.dumps(r))
+        sys.exit(0)
+    sys.exit(main())
